@@ -228,7 +228,8 @@ u_cfg(uint64_t idx, void *arg)
                 VH_COUNT("placement with the last octet at the top of the address space");
             /* aux: none, then sizes 0 (degenerate), 1..size+1 */
             one_config(size, place, ck, 0, 0, &r, vh_tier || size <= 9);
-            for (size_t a = 0; a <= size + 1; a++) {
+            /* up to size + 5: a buffer that takes the data and the checksum at once */
+            for (size_t a = 0; a <= size + 5; a++) {
                 if (!vh_tier && size > 9 && !(a <= 3 || a + 2 >= size || vh_chance(&r, 1, 6)))
                     continue;
                 if (a == 0)
